@@ -156,6 +156,14 @@ func (c *Ctx) Violation(v Violation) bool {
 	return len(c.res.Violations) >= c.maxViol
 }
 
+// NewLocalCtx returns a context for in-process use (replay).
+func NewLocalCtx(prop string) *Ctx {
+	c := &Ctx{Prop: prop, Tier: "quick", NShards: 1, Deadline: time.Now().Add(time.Hour), Args: map[string]string{},
+		distinct: map[string]map[uint64]struct{}{}, maxViol: 1}
+	c.res = Result{Counters: map[string]int64{}, Distinct: map[string][]uint64{}, Notes: map[string]string{}, Outcomes: map[string]map[string]int64{}}
+	return c
+}
+
 // NViolations returns the number of violations recorded by this worker.
 func (c *Ctx) NViolations() int { return len(c.res.Violations) }
 
